@@ -978,7 +978,7 @@ where
                                 return;
                             }
 
-                            if inner.done {
+                            if inner.done && inner.complete {
                                 break;
                             }
                         }
